@@ -154,6 +154,10 @@ class StmtMixin:
         """`x: List[int] = []` -> typed empty symbolic sequence; sets/dicts likewise."""
         if ty is None:
             return v
+        if isinstance(v, VRef) and v.sort == "Opaque":
+            nv = self.fresh("from_opaque", ty)  # a library result of a declared type: arbitrary value of that type
+            self.assume_seq_lengths(nv)
+            return self.force(nv)
         t = ty.t if isinstance(ty, Opt) else ty
         if isinstance(v, VList) and isinstance(t, Seq) and not v.items:
             return self.list_to_seq(v, t.t)
@@ -196,6 +200,9 @@ class StmtMixin:
                 items = [self.seq_get(v, z3.IntVal(i)) for i in range(n)]
             elif isinstance(v, VNone):
                 raise PyRaise("TypeError", "cannot unpack None")
+            elif isinstance(v, VRef) and v.sort == "Opaque":
+                from specs.opaque import fresh_opaque
+                items = [fresh_opaque(self) for _ in range(n)]
             else:
                 raise OutOfSubset(f"unpacking {v!r}")
             for e, x in zip(t.elts, items):
